@@ -371,8 +371,8 @@ Qed.
 
 (* every accepted string is one of the four forms (so parse_parts describes every
    success; a trailing '/' with nothing after it reads as "no resource") *)
-Lemma parsed_form s j :
-  new_jid s = Ok j -> s = full j \/ s = full j ++ [c_slash].
+Lemma parsed_form_strict s j :
+  new_jid s = Ok j -> s = full j \/ (resource j = [] /\ s = full j ++ [c_slash]).
 Proof.
   unfold new_jid. intros H.
   destruct (is_empty s) eqn:Hes; [discriminate|].
@@ -386,7 +386,7 @@ Proof.
     destruct Hshape as [[Hd Hr]|Hd]; subst rest s.
     + subst r. cbn [is_empty app]. left. reflexivity.
     + destruct r as [|y r]; cbn [is_empty app].
-      * right. rewrite <- app_assoc. reflexivity.
+      * right. split; [reflexivity|]. rewrite <- app_assoc. reflexivity.
       * left. reflexivity.
   - apply finish_ok in H. destruct H as [Hn [_ [_ Hshape]]].
     destruct j as [n d r]. cbn [node domain resource] in *. subst n.
@@ -394,6 +394,94 @@ Proof.
     destruct Hshape as [[Hd Hr]|Hd]; subst s.
     + subst r. cbn [is_empty]. left. reflexivity.
     + destruct r as [|y r]; cbn [is_empty app].
-      * right. reflexivity.
+      * right. split; reflexivity.
       * left. reflexivity.
+Qed.
+
+Lemma parsed_form s j :
+  new_jid s = Ok j -> s = full j \/ s = full j ++ [c_slash].
+Proof.
+  intros H. destruct (parsed_form_strict _ _ H) as [E|[_ E]]; [left | right]; exact E.
+Qed.
+
+(* ---- the converse of parse_parts: acceptance characterised ---- *)
+(* a well-formed address with an empty resource and a trailing '/' parses to the same JID *)
+Lemma accepted_trailing_slash j :
+  valid_local (node j) -> valid_domain (domain j) -> resource j = [] ->
+  new_jid (full j ++ [c_slash]) = Ok j.
+Proof.
+  destruct j as [n d r]. cbn [node domain resource]. intros Hl Hd ->.
+  unfold full, bare. cbn [node domain resource is_empty].
+  destruct n as [|x n]; cbn [is_empty].
+  - exact (parse_dr d [] Hd (fun F => F)).
+  - replace (((x :: n) ++ [c_at] ++ d) ++ [c_slash])
+      with ((x :: n) ++ [c_at] ++ d ++ [c_slash] ++ []).
+    + apply parse_ldr; [exact Hl | discriminate | exact Hd].
+    + cbn [app]. rewrite <- !app_assoc. reflexivity.
+Qed.
+
+(* A string is accepted with result j exactly when j is a well-formed triple and the
+   string is its rendering (optionally followed by one '/', when j has no resource). *)
+Lemma accepts_iff s j :
+  new_jid s = Ok j <->
+  (valid_local (node j) /\ valid_domain (domain j) /\
+   (node j = [] -> ~ In c_at (resource j)) /\
+   (s = full j \/ (resource j = [] /\ s = full j ++ [c_slash]))).
+Proof.
+  split.
+  - intros H. destruct (parsed_wf _ _ H) as [Hl [Hd Hr]].
+    split; [exact Hl|]. split; [exact Hd|]. split; [exact Hr|]. exact (parsed_form_strict _ _ H).
+  - intros [Hl [Hd [Hr [E|[Hres E]]]]]; subst s.
+    + exact (proj1 (roundtrip_wf j Hl Hd Hr)).
+    + exact (accepted_trailing_slash j Hl Hd Hres).
+Qed.
+
+(* ... and rejected exactly when no well-formed triple renders to it: the list of
+   C15_rejects is complete. *)
+Lemma rejects_iff s :
+  new_jid s = Err <->
+  (forall j, valid_local (node j) -> valid_domain (domain j) ->
+     (node j = [] -> ~ In c_at (resource j)) ->
+     s <> full j /\ ~ (resource j = [] /\ s = full j ++ [c_slash])).
+Proof.
+  split.
+  - intros H j Hl Hd Hr.
+    split; intros E;
+      assert (Hok : new_jid s = Ok j) by (apply accepts_iff; tauto);
+      rewrite H in Hok; discriminate.
+  - intros H. destruct (new_jid s) as [j|] eqn:Hn; [|reflexivity]. exfalso.
+    apply accepts_iff in Hn. destruct Hn as [Hl [Hd [Hr Hs]]].
+    destruct (H j Hl Hd Hr) as [H1 H2]. destruct Hs as [E|E]; [exact (H1 E) | exact (H2 E)].
+Qed.
+
+(* ---- the white-space table: Unicode White_Space, 25 code points.  Fails (on purpose)
+   when the toolchain's table, re-dumped into Gen/Generated.v on every run, differs. ---- *)
+Definition white_space_table : list N :=
+  [9; 10; 11; 12; 13; 32; 133; 160; 5760; 8192; 8193; 8194; 8195; 8196; 8197; 8198; 8199;
+   8200; 8201; 8202; 8232; 8233; 8239; 8287; 12288].
+
+Lemma unicode_space_table : Generated.unicode_space = white_space_table.
+Proof. reflexivity. Qed.
+
+Lemma space_char_iff c : space_char c <-> In c white_space_table.
+Proof. unfold space_char. rewrite unicode_space_table. tauto. Qed.
+
+(* Units at or above 0x110000 (how the correspondence run encodes a byte that is not
+   part of valid UTF-8: 0x110000 + byte) and U+FFFD (what Go's rune functions see for
+   such a byte) are in neither rejected class: an invalid byte is an ordinary character. *)
+Lemma high_unit_ok c : 1114112 <= c \/ c = 65533 -> ~ bad_local_char c /\ ~ bad_domain_char c.
+Proof.
+  intros Hc. split; intros [Hs|Hf].
+  - apply space_char_iff in Hs. unfold white_space_table in Hs. cbn [In] in Hs.
+    repeat (destruct Hs as [Hs|Hs]; [subst c; destruct Hc as [Hc|Hc]; [apply Hc; reflexivity | discriminate]|]).
+    exact Hs.
+  - unfold local_forbidden in Hf. cbn [In] in Hf.
+    repeat (destruct Hf as [Hf|Hf]; [subst c; destruct Hc as [Hc|Hc]; [apply Hc; reflexivity | discriminate]|]).
+    exact Hf.
+  - apply space_char_iff in Hs. unfold white_space_table in Hs. cbn [In] in Hs.
+    repeat (destruct Hs as [Hs|Hs]; [subst c; destruct Hc as [Hc|Hc]; [apply Hc; reflexivity | discriminate]|]).
+    exact Hs.
+  - unfold domain_forbidden in Hf. cbn [In] in Hf.
+    repeat (destruct Hf as [Hf|Hf]; [subst c; destruct Hc as [Hc|Hc]; [apply Hc; reflexivity | discriminate]|]).
+    exact Hf.
 Qed.
